@@ -96,6 +96,15 @@ def gridStr (buf : List (List VaxisModel.Model.Window.Cell)) : String :=
   if buf.isEmpty then "-" else
   "/".intercalate (buf.map fun row => ",".intercalate (row.map fun c => s!"{c.g}.{c.w}.{c.st}"))
 
+/-- Consecutive raw text writes are one run of bytes on the wire: compare them as such (the lexer
+    segments a run by longest match over the session's graphemes, which need not be where the cell
+    boundaries were — two cells holding the halves of one cluster, finding F111c / F112d). -/
+def mergeTexts : List Tok → List Tok
+  | .text a :: .text b :: rest => mergeTexts (.text (a ++ b) :: rest)
+  | k :: rest => k :: mergeTexts rest
+  | [] => []
+termination_by l => l.length
+
 def bad3 : String := "bad-op\tbad-op\tbad-op"
 
 def frame (s : St) (e : EndOp) (impl : String) : St × String :=
@@ -113,7 +122,7 @@ def frame (s : St) (e : EndOp) (impl : String) : St × String :=
       let next : Grid := s.interp.grid s.spec
       let t0 := if refresh then C01.scramble s.term (next.any fun row => !row.isEmpty) else s.term
       let t1 := Display.run cw t0 itoks
-      let canon := match C01.firstDiff mtoks itoks 0 with
+      let canon := match C01.firstDiff (mergeTexts mtoks) (mergeTexts itoks) 0 with
         | none => let k := s!"toks={mtoks.length}"; (k, k)
         | some (i, a, b) => (s!"M@{i}:{a}", s!"I@{i}:{b}")
       let os : C01.St := { caps := s.caps, dict := s.dict, cn := s.specCur }
